@@ -165,11 +165,10 @@ class Bounds:
         if k == 'Block':
             return self.block(st, env, pos)
         if k == 'AssignOp':
-            x = T.peel(st['x'])
-            tgt = x
-            while tgt.get('k') in ('Deref', 'Unary') and 'x' in tgt:
-                tgt = T.peel(tgt['x'])
-            is_byte = (x.get('k') in ('Deref',) or (x.get('k') == 'Unary' and x.get('op') == '*'))
+            raw = st['x']
+            x = T.peel(raw)
+            # (T.peel strips the dereference: look at the unpeeled target)
+            is_byte = raw.get('k') == 'Deref' or (raw.get('k') == 'Unary' and raw.get('op') == '*')
             if is_byte and st.get('op') == '+=':
                 room = self.room_of(st['y'], env)
                 lim = self.limits[1]
